@@ -36,11 +36,12 @@ THEOREMS = ["Ymq.C19Wied." + t for t in (
     "krylov_recurrence detp4_spec_full_complexity detp4_false_zero_iff_deficient mulp_spec mulp_overflow_witness "
     "detp4_lane_of_model detp4_lane_of_norm detz_of_detp_partial detz_early_termination_witness "
     "isprime64_isprimeSound select_crtprimes_spec select_crtprimes_zero_norm detz_of_detp_selected_partial "
-    "mkMat_valid ker_p256_sound ker_p256_none_iff ker_p256_panics").split()]
+    "mkMat_valid ker_p256_sound ker_p256_none_iff ker_p256_panics detz_early_termination_witness_closed").split()]
 
 # nonsingular matrices on which detz returns a wrong value because the CRT loop stops at the first repeated value
 WITNESS_ZERO = "im_det_sparse 0:21,1:-1;0:5461,1:16384,2:-1;0:5461,2:16384,3:-1;0:4926,3:16384,4:-1;0:8192,4:16384,5:-1;5:16384,6:-1;0:4645,6:16384,7:-1;0:-2432,7:16384,8:-1;0:-1,8:16384,9:-1;0:535,9:16384,10:-1;0:-1832,10:16384,11:-1;0:684,11:16384,12:-1;0:-5528,12:16384,13:-1;0:-5929,13:16384,14:-1;0:6260,14:16384"       # 15x15, det = 108 * p0*p1*p2*p3 (201 bits): detz = 0 after ONE block
 WITNESS_NONZERO = "im_det_sparse 0:639,1:-1;0:4557,1:16384,2:-1;0:5798,2:16384,3:-1;0:5039,3:16384,4:-1;0:5077,4:16384,5:-1;0:-3731,5:16384,6:-1;0:-7386,6:16384,7:-1;0:-5049,7:16384,8:-1;0:-6136,8:16384,9:-1;0:-204,9:16384,10:-1;0:3052,10:16384,11:-1;0:4938,11:16384,12:-1;0:-4898,12:16384,13:-1;0:-7636,13:16384,14:-1;0:7090,14:16384,15:-1;0:-4047,15:16384,16:-1;0:-1082,16:16384,17:-1;0:-1570,17:16384,18:-1;0:-1373,18:16384,19:-1;0:1143,19:16384,20:-1;0:2943,20:16384,21:-1;0:-7929,21:16384,22:-1;0:5014,22:16384,23:-1;0:961,23:16384,24:-1;0:574,24:16384,25:-1;0:5488,25:16384,26:-1;0:-587,26:16384,27:-1;0:8192,27:16384"    # 28x28, det = p0*...*p7 + 9671 (388 bits): detz = 9671 after two blocks
+WITNESS_ZERO_ROT = "im_det_sparse 0:-1,14:21;0:16384,1:-1,14:5461;1:16384,2:-1,14:5461;2:16384,3:-1,14:4926;3:16384,4:-1,14:8192;4:16384,5:-1;5:16384,6:-1,14:4645;6:16384,7:-1,14:-2432;7:16384,8:-1,14:-1;8:16384,9:-1,14:535;9:16384,10:-1,14:-1832;10:16384,11:-1,14:684;11:16384,12:-1,14:-5528;12:16384,13:-1,14:-5929;13:16384,14:6260"   # the same with the digit column last: determinant proved in Lean (detz_early_termination_witness_closed)
 FINDINGS = [{
     "property": "C19", "key": "sparse-det-early-termination",
     "what": "SparseMat::detz does not use a determinant bound: it rebuilds the determinant by CRT after every block of 4 moduli and returns as "
@@ -90,6 +91,7 @@ def cases(tier, rng, extended=False):
     out = []
     # the two early-termination witnesses (O fails with the finding key above; K agrees)
     out.append(Case(WITNESS_ZERO, tag="2142584058999773599800257773214217008184610623453022075082868"))
+    out.append(Case(WITNESS_ZERO_ROT, tag="2142584058999773599800257773214217008184610623453022075082868"))
     out.append(Case(WITNESS_NONZERO, tag="393575655852331732609263509333303814599402965439568841511799354567693580869345233969607680488260441154519637393498112"))
     # mulp outside its documented precondition p * norm < 2^63: the checked profile panics on the i64 overflow (model = chk),
     # the release profile wraps silently (wrong residue): K on chk only, no oracle
